@@ -5,47 +5,51 @@ use crate::air::{AirStmt, AsmLine};
 use crate::symbol::verif_h::span_of;
 
 /// address -> statement: statement (address - origin) when that index exists, nothing otherwise; the text
-/// shown is exactly the statement's span of the source
-#[kani::proof]
-#[kani::unwind(6)]
-fn c17_source_statement_lookup() {
-    let orig: u16 = kani::any();
-    let n: usize = kani::any();
-    kani::assume(n <= 3);
-    const SRC: &str = "ab cdefg";
-    let mut ast = Vec::new();
-    let mut i = 0;
-    while i < 3 {
-        if i < n {
-            let o: usize = kani::any();
-            let l: usize = kani::any();
-            kani::assume(o <= 8 && l <= 8 && o + l <= 8);
-            ast.push(AsmLine::new((i + 1) as u16, AirStmt::Return, span_of(o, l)));
-        }
-        i += 1;
-    }
-    let src = AsmSource::from(orig, ast, SRC);
-    let addr: u16 = kani::any();
-    let idx: i32 = addr as i32 - orig as i32;
-    let got = src.get_source_statement(addr);
-    if idx >= 0 && (idx as usize) < n {
-        match got {
-            Some(st) => {
-                assert!(st.line as i32 == idx + 1, "address mapped to another statement");
-                let text = src.get_single_line(addr).unwrap();
-                assert!(text.len() == st.span.len() && text.as_ptr() == SRC[st.span.offs()..].as_ptr(), "shown text is not the statement's span");
+/// shown is exactly the statement's span of the source.  N statements (concrete per harness).
+macro_rules! lookup {
+    ($name:ident, $n:expr) => {
+        #[kani::proof]
+        #[kani::unwind(6)]
+        fn $name() {
+            let orig: u16 = kani::any();
+            let n: usize = $n;
+            const SRC: &str = "ab cdefg";
+            let mut ast = Vec::new();
+            let mut i = 0;
+            while i < n {
+                let o: usize = kani::any();
+                let l: usize = kani::any();
+                kani::assume(o <= 8 && l <= 8 && o + l <= 8);
+                ast.push(AsmLine::new((i + 1) as u16, AirStmt::Return, span_of(o, l)));
+                i += 1;
             }
-            None => assert!(false, "address holding a statement shows nothing"),
+            let src = AsmSource::from(orig, ast, SRC);
+            let addr: u16 = kani::any();
+            let idx: i32 = addr as i32 - orig as i32;
+            let got = src.get_source_statement(addr);
+            if idx >= 0 && (idx as usize) < n {
+                match got {
+                    Some(st) => {
+                        assert!(st.line as i32 == idx + 1, "address mapped to another statement");
+                        let text = src.get_single_line(addr).unwrap();
+                        assert!(text.len() == st.span.len() && text.as_ptr() == SRC[st.span.offs()..].as_ptr(), "shown text is not the statement's span");
+                    }
+                    None => assert!(false, "address holding a statement shows nothing"),
+                }
+            } else {
+                assert!(got.is_none(), "address holding no statement shows one");
+                assert!(src.get_single_line(addr).is_none());
+            }
+            kani::cover!(idx < 0);
+            kani::cover!(idx >= 0 && idx as usize >= n);
+            kani::cover!(n == 0 || (idx >= 0 && (idx as usize) < n));
+            core::mem::forget(src);
         }
-    } else {
-        assert!(got.is_none(), "address holding no statement shows one");
-        assert!(src.get_single_line(addr).is_none());
-    }
-    kani::cover!(idx == 2 && n == 3);
-    kani::cover!(idx < 0);
-    kani::cover!(idx >= 0 && idx as usize >= n);
-    core::mem::forget(src);
+    };
 }
+lookup!(c17_source_lookup_0, 0usize);
+lookup!(c17_source_lookup_1, 1usize);
+lookup!(c17_source_lookup_3, 3usize);
 
 /// `assembly <address>` in minimal mode prints exactly the bytes of the statement's span, also when multi-byte
 /// characters precede the statement in the source (spans are byte offsets)
